@@ -154,7 +154,7 @@ def panic_ok(g, pan):
     return not any(on_cycle(g, n) and (reach(g, [n]) & set(pan)) for n in g)
 
 
-def validate_traces(wd, trace_path, nodes=NODES4, fix=FIXED, name="T", timeout=1500, heap="8g"):
+def validate_traces(wd, trace_path, nodes=NODES4, fix=FIXED, name="T", timeout=1500, heap="8g", opaque=False):
     """TLC-validate an ndjson file of traces against IncExecTrace.  Returns (accepted, matched, total, TLCResult)."""
     mod = "IncExecTraceGen_" + name
     tf = os.path.basename(trace_path)
@@ -166,7 +166,7 @@ def validate_traces(wd, trace_path, nodes=NODES4, fix=FIXED, name="T", timeout=1
                  % (mod, tla_seq(nodes), fix))
     with open(os.path.join(wd, mod + ".cfg"), "w") as fh:
         fh.write("SPECIFICATION TSpec\nCONSTANTS\n  Nodes = %s\n  NodeOrd <- GenOrd\n  Cases <- GenCases\n  Fix <- GenFix\n"
-                 "  Stale = TRUE\n  TraceFile = \"%s\"\n" % (tla_set(nodes), tf))
+                 "  Stale = TRUE\n  TraceFile = \"%s\"\n  Opaque = %s\n" % (tla_set(nodes), tf, "TRUE" if opaque else "FALSE"))
         fh.write("CONSTRAINT TraceConstraint\nPOSTCONDITION Accepted\nCHECK_DEADLOCK FALSE\n")
     r = vf.tlc(mod, mod + ".cfg", wd, workers=1, timeout=timeout, heap=heap, extra_args=("-noGenerateSpecTE",))
     matched = total = -1
@@ -222,20 +222,20 @@ def fam_c33_seq(graphs, nodes, pars, batch_variants, plans):
 
 
 def c33_plans(nodes, rich):
-    a, c = nodes[0], nodes[-1]
+    a, b, c = nodes[0], nodes[1], nodes[-1]
     allr, rev = list(nodes), list(reversed(nodes))
     plans = [
         [runop(allr), evict(c), runop(rev)],                        # evict a leaf: everything above recomputes
-        [runop([a]), evict(a), runop(allr), evict(nodes[1]), runop([a])],
-        [runop(allr, rev), evict(c), runop([a], rev)],              # two concurrent runs, twice
+        [runop([a]), evict(a), runop(allr), evict(b), runop([a])],  # evict the top, then the middle
+        [runop([a], [a]), evict(c), runop([a], [b])],               # two concurrent runs, twice
         [runop([a]), evict(c, conc=True), runop(allr)],             # Evict overlapping a Run
     ]
     if rich:
         plans += [
-            [runop(rev), evict(nodes[1]), runop(allr), evict(a, c), runop(rev)],
+            [runop(rev), evict(b), runop(allr), evict(a, c), runop(rev)],
             [runop([a], [c]), evict(a), runop(allr, allr)],
-            [runop(allr), evict(nodes[1], conc=True), runop(rev), evict(c, conc=True), runop(allr)],
-            [runop([c]), runop(allr), evict(c), evict(a), runop([a], [nodes[1]])],
+            [runop(allr), evict(b, conc=True), runop(rev), evict(c, conc=True), runop(allr)],
+            [runop([c]), runop(allr), evict(c), evict(a), runop([a], [b])],
         ]
     return plans
 
@@ -418,37 +418,62 @@ def shapes(names):
 
 
 def families(pid, tier, rng):
-    """-> (model-checked families [(name, nodes, cases, liveness)], replay-only families [(name, nodes, cases)])."""
+    """-> (model-checked families [(name, nodes, cases, liveness)], replay-only families [(name, nodes, cases)]).
+    Sizes are chosen by measured state counts (quick: some 10^4 states, thorough: some 10^6)."""
     dag3 = [g for g in digraphs(NODES3, loops=False) if is_dag(g)]
     all3 = digraphs(NODES3, loops=True)
+    canon = list(SHAPES3.values())
     mc, ro = [], []
     if pid == "C33":
+        base = c33_plans(NODES3, False)
         if tier == "quick":
-            mc.append(("c33seq", NODES3, fam_c33_seq(shapes(["diamond", "chain"]), NODES3, (1, 2), ["one"],
-                                                   c33_plans(NODES3, False)), False))
-            ro.append(("c33all", NODES3, fam_c33_seq(dag3, NODES3, (1, 2, 3), ["one", "single"], c33_plans(NODES3, False))))
+            cs = fam_c33_seq(shapes(["diamond"]), NODES3, (1,), ["one"], base[:3])
+            cs += fam_c33_seq(shapes(["chain"]), NODES3, (2,), ["one"], [base[0], base[2], base[3]])
+            mc.append(("c33seq", NODES3, cs, True))
+            ro.append(("c33all", NODES3, fam_c33_seq(dag3, NODES3, (1, 2, 3), ["one", "single"], c33_plans(NODES3, True))))
         else:
-            mc.append(("c33seq", NODES3, fam_c33_seq(dag3, NODES3, (1, 2, 3), ["one", "single"], c33_plans(NODES3, False)), False))
+            mc.append(("c33seq", NODES3, fam_c33_seq(dag3, NODES3, (1, 2), ["one"], base), True))
+            mc.append(("c33par3", NODES3, fam_c33_seq(shapes(["diamond", "chain", "fanin", "fanout"]), NODES3, (3,), ["one"], base), True))
             mc.append(("c33rich", NODES3, fam_c33_seq(shapes(["diamond", "chain", "fanin", "fanout"]), NODES3, (1, 2), ["one", "rev"],
                                                     c33_plans(NODES3, True)[4:]), True))
+            ro.append(("c33all", NODES3, fam_c33_seq(dag3, NODES3, (1, 2, 3), ["one", "rev", "single"], c33_plans(NODES3, True))))
             dag4 = [g for g in digraphs(NODES4, loops=False) if is_dag(g)]
-            ro.append(("c33n4", NODES4, fam_c33_seq(rng.sample(dag4, min(60, len(dag4))), NODES4, (1, 2, 3), ["one", "single"],
+            ro.append(("c33n4", NODES4, fam_c33_seq(rng.sample(dag4, min(80, len(dag4))), NODES4, (1, 2, 3), ["one", "single"],
                                                    c33_plans(NODES4, True))))
     else:
+        nedges = lambda g: sum(len(v) for v in g.values())
         if tier == "quick":
-            canon = list(SHAPES3.values())
-            mc.append(("c34single", NODES3, fam_c34(canon, NODES3, (1, 2), ["one"], 0, [NODES3]), True))
-            mc.append(("c34panic", NODES3, fam_c34(shapes(["chain", "fanout", "2cycle", "selfloop-tail"]), NODES3, (1,), ["one"], 1,
-                                                  [NODES3]), True))
+            small = shapes(["chain", "fanout", "fanin", "selfloop", "selfloop-tail", "2cycle", "3cycle", "cycle-tail"])
+            cs = fam_c34(small, NODES3, (1,), ["one"], 0, [NODES3])
+            cs += fam_c34(shapes(["2cycle"]), NODES3, (2,), ["one"], 0, [NODES3])
+            cs += [c for c in fam_c34(shapes(["chain"]), NODES3, (1,), ["one"], 1, [NODES3]) if c["pan"] == ["b"]]
+            mc.append(("c34", NODES3, cs, True))
             extra = rng.sample(all3, 12)
-            ro.append(("c34all", NODES3, fam_c34(canon + extra, NODES3, (1, 2, 3), ["one", "single"], 1, all_roots(NODES3)[:3])))
+            ro.append(("c34all", NODES3, fam_c34(canon + extra, NODES3, (1, 2, 3), ["one", "single"], 1, all_roots(NODES3)[:2])))
         else:
-            mc.append(("c34single", NODES3, fam_c34(all3, NODES3, (1, 2, 3), ["one", "single"], 0, [NODES3]), True))
-            mc.append(("c34panic1", NODES3, fam_c34(all3, NODES3, (1,), ["one"], 1, [NODES3]), True))
-            mc.append(("c34panic2", NODES3, fam_c34(list(SHAPES3.values()), NODES3, (2, 3), ["one"], 2, [NODES3]), True))
+            sparse = [g for g in all3 if nedges(g) <= 4]
+            mc.append(("c34single1", NODES3, fam_c34(sparse + canon, NODES3, (1,), ["one"], 0, [NODES3]), True))
+            mc.append(("c34single2", NODES3, fam_c34(canon, NODES3, (2,), ["one"], 0, [NODES3]), True))
+            mc.append(("c34single3", NODES3, fam_c34(shapes(["chain", "fanin", "2cycle", "3cycle", "selfloop-tail"]), NODES3, (3,), ["one"], 0, [NODES3]), True))
+            mc.append(("c34panic1", NODES3, fam_c34([g for g in all3 if nedges(g) <= 3], NODES3, (1,), ["one"], 1, [NODES3]), True))
+            mc.append(("c34panic2", NODES3, fam_c34(shapes(["chain", "fanin"]), NODES3, (2,), ["one"], 1, [NODES3]), True))
             ro.append(("c34all", NODES3, fam_c34(all3, NODES3, (1, 2, 3), ["one", "rev", "single"], 2, all_roots(NODES3)[:3])))
-            all4 = digraphs(NODES4, loops=True) if False else None
+            g4 = sample_graphs4(rng, 150)
+            ro.append(("c34n4", NODES4, fam_c34(g4, NODES4, (1, 2, 3), ["one", "single"], 1, [NODES4, list(reversed(NODES4))])))
     return [(n, nd, dedup(cs), lv) for n, nd, cs, lv in mc], [(n, nd, dedup(cs)) for n, nd, cs in ro]
+
+
+def sample_graphs4(rng, n):
+    """Random digraphs on 4 nodes (self-loops allowed), sparse ones preferred (at most 6 edges)."""
+    out = []
+    pairs = [(x, y) for x in NODES4 for y in NODES4]
+    while len(out) < n:
+        k = rng.randint(2, 6)
+        es = rng.sample(pairs, k)
+        g = {x: sorted(y for a, y in es if a == x) for x in NODES4}
+        if g not in out:
+            out.append(g)
+    return out
 
 
 def run(pid, tier, replay=None):
@@ -487,7 +512,7 @@ def run(pid, tier, replay=None):
         exported.append((name, nodes, export_cases(wd, name, nodes, cases)))
     # 2. direction A (+ recording for B): every exported case on the real executor
     reps = 3 if thorough else 2
-    trace_budget = 60000 if thorough else 9000     # events validated by TLC (about 1000 / s)
+    trace_budget = 60000 if thorough else 5000     # events validated by TLC (about 1000 / s)
     tfiles = []
     for name, nodes, cases in exported:
         tp = drive(wd, binary, name, cases, reps, verdict, acc)
@@ -499,8 +524,8 @@ def run(pid, tier, replay=None):
     check_traces(wd, sel, NODES4, verdict, acc, "sel")
     if thorough:
         binding_selftests(wd, sel, NODES4, acc)
-        pkg = package_test_traces(wd, acc)
-        acc.pkg = pkg
+        acc.pkg = package_test_traces(wd, acc, verdict)
+        acc.sim = simulate_4(wd, pid, rng, acc)
     rc = verdict.finish()
     vf.write_evidence(pid, tier, "model_checking", {
         "states": acc.states, "transitions": acc.trans,
@@ -518,8 +543,26 @@ def run(pid, tier, replay=None):
         "exhaustive": True,
         "binding_selftests": acc.selftests,
         "package_tests": getattr(acc, "pkg", None),
+        "simulation_4_nodes": getattr(acc, "sim", None),
     }, ASSUMPTIONS, time.time() - t0, violations=len(verdict.violations), known=verdict.known_hits)
     return rc
+
+
+def simulate_4(wd, pid, rng, acc):
+    """4-node graphs: random behaviours of IncExec (tlc -simulate, seeded) with every invariant checked."""
+    if pid == "C33":
+        dag4 = [g for g in digraphs(NODES4, loops=False) if is_dag(g)]
+        cases = fam_c33_seq(rng.sample(dag4, 40), NODES4, (1, 2, 3), ["one", "single"], c33_plans(NODES4, True))
+    else:
+        cases = fam_c34(sample_graphs4(rng, 80), NODES4, (1, 2, 3), ["one", "single"], 1, [NODES4])
+    cases = dedup(cases)
+    mod, cfg = write_mc(wd, "sim4", NODES4, cases, liveness=False)
+    num = 4000
+    r = vf.tlc(mod, cfg, wd, workers=1, simulate=num, depth=400, tseed=vf.seed(), timeout=900, case_sink=lambda o: None)
+    if r.violated:
+        raise vf.MachineryError("spec-level (simulation, 4 nodes): %s violated; see %s" % (r.violated, r.stdout_path))
+    acc.trans += r.generated
+    return {"cases": len(cases), "behaviours": num, "states_generated": r.generated}
 
 
 def select_traces(paths, out, budget, rng):
@@ -549,15 +592,122 @@ def select_traces(paths, out, budget, rng):
     return n, ev
 
 
-def package_test_traces(wd, acc):
-    """The package's own tests with the tag on: they must pass, and their hook traces are recorded.  (The test
-    queries are not nodes of a static case graph, so their traces are checked for well-formedness only.)"""
-    tf = os.path.join(wd, "pkgtests.ndjson")
+PKG_NODES = ["n%02d" % i for i in range(1, 17)]
+PKG_TRACED_TESTS = "TestSum|TestFatal|TestCyclic|TestPanic|TestStarvation|TestTimings"
+
+
+def convert_pkg_trace(src, dst):
+    """Turn the hook trace of the package's own tests into traces IncExecTrace can read (Opaque mode): one trace per
+    Executor; the case header (batches each query resolved, panicking queries, history) is read off the events
+    themselves; keys are renamed to n01.. .  Executors with overlapping Runs or too many keys are skipped."""
+    by_exec = {}
+    for line in open(src):
+        e = json.loads(line)
+        if "e" in e:
+            by_exec.setdefault(e["e"], []).append(e)
+    written, skipped = 0, []
+    with open(dst, "w") as out:
+        for ex, evs in sorted(by_exec.items()):
+            evs.sort(key=lambda e: e["seq"])
+            names = {}
+
+            def nm(k):
+                if k == "_root":
+                    return k
+                if k not in names:
+                    names[k] = "n%02d" % (len(names) + 1)
+                return names[k]
+            active, overlap = 0, False
+            bat_by_task, key_of_task, returned, panicked = {}, {}, set(), set()
+            plan, res = [], []
+            for e in evs:
+                ev = e["ev"]
+                if ev == "run.enter":
+                    overlap = overlap or active > 0
+                    active += 1
+                    plan.append({"op": "run", "roots": [[]], "t": e["t"]})
+                    res.append({"ev": "op.begin", "step": len(plan)})
+                elif ev == "run.unlock":
+                    active -= 1
+                elif ev == "evict.collect":
+                    plan.append({"op": "evict", "keys": sorted(set(nm(k) for k in e["keys"])), "conc": False})
+                    res.append({"ev": "op.begin", "step": len(plan)})
+                    if not e["list"]:          # EvictWithCleanup(keys, nil) returns early when nothing is memoised
+                        res.append(dict(e, keys=[nm(k) for k in e["keys"]], list=[]))
+                        res.append({"ev": "evict.apply", "e": ex, "keys": [nm(k) for k in e["keys"]], "list": [], "synthetic": True})
+                        continue
+                elif ev == "stored":
+                    if e["ck"] == "_root":
+                        for op in plan:
+                            if op.get("t") == e["t"]:
+                                op["roots"] = [[nm(k) for k in e["keys"]]]
+                    else:
+                        bat_by_task.setdefault(e["t"], []).append([nm(k) for k in e["keys"]])
+                        key_of_task[e["t"]] = nm(e["ck"])
+                elif ev == "exec.ret":
+                    returned.add(e["t"])
+                elif ev == "panic.cancel" and e["t"] not in returned:
+                    panicked.add(nm(e["k"]))
+                e2 = dict(e)
+                for f in ("k", "ck"):
+                    if f in e2:
+                        e2[f] = nm(e2[f])
+                for f in ("keys", "list", "path"):
+                    if f in e2 and e2[f] is not None:
+                        e2[f] = [nm(k) for k in e2[f]]
+                res.append(e2)
+            bat, conflict = {}, False
+            for t, bs in bat_by_task.items():
+                k = key_of_task[t]
+                if k in bat and bat[k] != bs:
+                    conflict = True
+                bat.setdefault(k, bs)
+            if overlap or conflict or len(names) > len(PKG_NODES) or not plan:
+                skipped.append({"executor": ex, "overlapping_runs": overlap, "batches_differ": conflict, "keys": len(names)})
+                continue
+            for op in plan:
+                op.pop("t", None)
+            hdr = {"cfg": {"bat": bat, "pan": sorted(panicked), "par": 16, "plan": plan}, "ev": "case", "id": ex,
+                   "order": PKG_NODES, "keys": names}
+            out.write(json.dumps(hdr, separators=(",", ":")) + "\n")
+            for i, e in enumerate(res, 1):
+                e["seq"] = i
+                out.write(json.dumps(e, separators=(",", ":")) + "\n")
+            written += 1
+    return written, skipped
+
+
+def package_test_traces(wd, acc, verdict=None):
+    """The package's own tests with the tag on: all must pass; the hook traces of the tests whose Runs do not
+    overlap are validated against IncExecTrace in Opaque mode (values and errors from the trace; properties that
+    need no oracle: NoStuckPending, PermitsRestored, NoAbort, CycleError, AtMostOnce, ChangedFlag)."""
     env = vf.go_env()
-    env["VERIF_TRACE_FILE"] = tf
     p = subprocess.run(["go", "test", "-tags", "verif", "-count=1", "./experimental/incremental/"], cwd=vf.REPO, env=env,
-                       capture_output=True, text=True, timeout=600)
+                       capture_output=True, text=True, timeout=900)
     if p.returncode != 0:
         raise vf.MachineryError("package tests fail with -tags verif:\n" + p.stdout[-2000:] + p.stderr[-2000:])
-    n = sum(1 for _ in open(tf)) if os.path.exists(tf) else 0
-    return {"passed": True, "events": n}
+    tf = os.path.join(wd, "pkgtests_raw.ndjson")
+    env["VERIF_TRACE_FILE"] = tf
+    p = subprocess.run(["go", "test", "-tags", "verif", "-count=1", "-run", PKG_TRACED_TESTS, "./experimental/incremental/"],
+                       cwd=vf.REPO, env=env, capture_output=True, text=True, timeout=900)
+    if p.returncode != 0 or not os.path.exists(tf):
+        raise vf.MachineryError("traced package tests failed:\n" + p.stdout[-2000:] + p.stderr[-2000:])
+    conv = os.path.join(wd, "pkgtests.ndjson")
+    n, skipped = convert_pkg_trace(tf, conv)
+    info = {"passed": True, "traces": n, "skipped": skipped, "tests": PKG_TRACED_TESTS}
+    if n:
+        ok, matched, total, r = validate_traces(wd, conv, nodes=PKG_NODES, name="pkg", opaque=True)
+        acc.states += r.distinct
+        acc.trans += r.generated
+        info.update({"accepted": ok, "events": total, "matched": matched})
+        if not ok:
+            hdr, evn = first_unmatched(conv, matched)
+            if verdict is not None:
+                verdict.disagree("pkgtest-trace-rejected:" + (evn or {}).get("ev", "end"),
+                                 {"keys": (hdr or {}).get("keys"), "cfg": (hdr or {}).get("cfg"), "first_unmatched": evn,
+                                  "matched_events": matched},
+                                 "the package's own test execution is not a behaviour of IncExec")
+        else:
+            acc.validated_traces += n
+            acc.validated_events += total
+    return info
